@@ -343,10 +343,17 @@ func runCheck(args []string) {
 		}
 	}
 	// findings
+	otherFindings := map[string]bool{}
 	for _, gn := range order {
 		g := groups[gn]
 		for _, o := range g.Obls {
 			if o.Kind == "finding" && (o.Status == "sat" || o.Status == "unknown" || o.Status == "timeout") {
+				if o.FProp != "" && o.FProp != *prop {
+					// a finding recorded for another property on a function this property shares: the clause
+					// is weakened here too, but it is reported by that property's check
+					otherFindings[fmt.Sprintf("property=%s %s", o.FProp, o.Note)] = true
+					continue
+				}
 				line := fmt.Sprintf("KNOWN-FINDING: property=%s %s", *prop, o.Note)
 				dup := false
 				for _, l := range knownLines {
@@ -356,6 +363,17 @@ func runCheck(args []string) {
 				}
 				if !dup {
 					knownLines = append(knownLines, line)
+				}
+			}
+		}
+	}
+	// thorough tier: the canary of every recorded finding of this property is run on the real code
+	canaries := map[string]string{}
+	if *tier == "thorough" {
+		for _, f := range P.findings.Findings {
+			if f.Property == *prop && f.Canary != "" {
+				if _, done := canaries[f.Canary]; !done {
+					canaries[f.Canary] = runCanary(P.repo, filepath.Join(cfgDir, f.Canary))
 				}
 			}
 		}
@@ -460,7 +478,7 @@ func runCheck(args []string) {
 	finish(*prop, *tier, seed, t0, cov, map[string]interface{}{
 		"functions_under_contract": funcsUnder, "by_backend": byBackend, "solver_time_s": map[string]float64{"sum": round2(solverTime), "max": round2(maxTime)},
 		"samples": samples, "assumed_contracts": assumed, "undecided_clauses": undecidedList, "skipped_slow_groups_in_quick_tier": skippedSlow,
-		"new_groups_not_in_baseline": newGroups, "groups": len(order), "slow_groups_undecided_this_run": slowUndecided, "vacuity_guards_undecided": coverUndecided,
+		"new_groups_not_in_baseline": newGroups, "groups": len(order), "slow_groups_undecided_this_run": slowUndecided, "vacuity_guards_undecided": coverUndecided, "canaries_of_known_findings": canaries, "findings_of_other_properties_on_shared_functions": sortedKeys(otherFindings),
 	}, violations, knownLines, sortedKeys(trusted), P, timeout)
 }
 
